@@ -195,6 +195,17 @@ def r3_atomics(ctx):
     for op in OPS:
         b = ctx.body(op, "C04.R3")
         acc = [s for s in b.sites() if kinds.mentions_field(b, s, field)]
+        # an operation expressed through other operations (`swap = load; store`) is several steps: each of them starts with
+        # its own choice point, so another task's write can land in between
+        ops_reach = kinds.may_reach_set(prog, set(OPS))
+        deleg = [s for s, t in b.calls() if (b.callees_of_call(t) & ops_reach) - {op}]
+        two = next((d for d in deleg if b.path_exists(d, lambda x: x in set(deleg)) is not None), None)
+        ctx.ob("C04.R3", "single-step|" + op, two is None and not (deleg and acc),
+               "`%s` is one atomic step: it does not chain several atomic operations (%d delegation site(s))" % (op, len(deleg)) if two is None and not (deleg and acc) else
+               "`%s` is composed of several atomic operations (first at %s): every one of them begins with its own choice point, so the "
+               "read and the write halves can be separated by another task's operation" % (op, b.loc(two or deleg[0])), loc=b.loc())
+        if deleg and not acc:
+            continue
         if not ctx.floor("C04.R3", "accesses of inner in " + op, len(acc), 1):
             continue
         # K2 a choice point dominates every access
